@@ -65,7 +65,8 @@ Init == l = 1 /\ TLCSet(1, 0) /\ Rec[1].e = "hist"
 
 \* which listed properties a wrong skip breaches
 WrongSkipProps(t) ==
-  {"C02", "C06"} \cup (IF (rec[t].k # "full" /\ cause[t] \in {"fail", "cancel", "crash"}) \/ cause[t] = "corrupt" THEN {"C05"} ELSE {}) \cup Focus
+  {"C02", "C06"} \cup (IF ~h.targets[t].hasInput THEN {"C03"} ELSE {})       \* C03: "a target that declares no input is always executed"
+             \cup (IF (rec[t].k # "full" /\ cause[t] \in {"fail", "cancel", "crash"}) \/ cause[t] = "corrupt" THEN {"C05"} ELSE {}) \cup Focus
 
 Invoke(e) ==
   LET t == e.m.t
